@@ -129,7 +129,7 @@ impl StreamId {
         let mut result = 0u64;
         for &b in bytes {
             if b < b'0' || b > b'9' { return None; }
-            result = result.wrapping_mul(10).wrapping_add((b - b'0') as u64);
+            result = result.checked_mul(10)?.checked_add((b - b'0') as u64)?;
         }
         Some(result)
     }
@@ -178,7 +178,16 @@ impl StreamId {
         
         // Same millisecond, increment sequence
         let seq = last_seq.fetch_add(1, Ordering::Relaxed);
-        StreamId::new(prev_millis, seq + 1)
+        match seq.checked_add(1) {
+            Some(next_seq) => StreamId::new(prev_millis, next_seq),
+            None => {
+                // Sequence numbers of this millisecond are used up: continue in the next one
+                let next_millis = prev_millis.saturating_add(1);
+                last_millis.store(next_millis, Ordering::Relaxed);
+                last_seq.store(0, Ordering::Relaxed);
+                StreamId::new(next_millis, 0)
+            }
+        }
     }
     
     pub fn min() -> Self {
@@ -363,6 +372,11 @@ impl Stream {
     pub fn add_with_id(&self, id: StreamId, fields: HashMap<Vec<u8>, Vec<u8>>) -> Result<(), &'static str> {
         let mut data = self.data.lock().unwrap();
         data.add_with_id(id, fields, self)
+    }
+    
+    /// Highest ID ever added to this stream (kept across deletions and trimming)
+    pub fn last_id(&self) -> StreamId {
+        self.data.lock().unwrap().last_id
     }
     
     /// Get length (lock-free atomic read - major performance win)
